@@ -4,7 +4,7 @@ from concurrent.futures import ThreadPoolExecutor
 from .common import *
 from . import kani as K
 
-MIRDIR = os.path.join(CACHE, "mir")
+MIRDIR = os.path.join(CACHE, "mir" + CACHE_TAG)
 
 
 def dump_mir(tag="dev"):
